@@ -187,12 +187,21 @@ def _attach_listeners(rec, sc):
                 rec.user_call("subscriber", "sub")
         interp.subscribe(sub)
 
+        def sub2(i):
+            # a second, well-behaved observer registered AFTER the one that may raise: it must see every change
+            rec.rec("sub2", i.id, i.status)
+        interp.subscribe(sub2)
+
         def lis(ev):
             rec.tick()
             rec.rec("emit", interp.id, getattr(ev, "type", None))
             if hostile_lis:
                 rec.user_call("listener", "lis")
         interp.on("*", lis)
+
+        def lis2(ev):
+            rec.rec("emit2", interp.id, getattr(ev, "type", None))
+        interp.on("*", lis2)
     _ACTIVE["subs"] = attach
 
 
